@@ -720,6 +720,12 @@ impl ActorCell {
         self.inner.tree.get_children().len()
     }
 
+    /// Has `take_children` closed this actor's child set? (verification hook)
+    #[cfg(feature = "verif")]
+    pub fn verif_children_closed(&self) -> bool {
+        self.inner.tree.verif_children_closed()
+    }
+
     /// `link` with its result: `false` = the link was refused (verification hook)
     #[cfg(feature = "verif")]
     pub fn verif_try_link(&self, supervisor: ActorCell) -> bool {
